@@ -74,6 +74,7 @@ def _(c):
     inv_c04(c)
     inv_c02(c)
     c.ens("level_kept", "self.optim_state['uncertainty_handling_level'] == old(self.optim_state['uncertainty_handling_level'])")
+    c.ens("log_only_grows", LOG_GROWS, props=["C19", "C04"])
     c10(c)
     c.ens("controller_untouched", "self.optim_state['search_count'] == old(self.optim_state['search_count']) and "
           "self.search_success == old(self.search_success)", props=["C03"])
